@@ -147,7 +147,8 @@ def wstep (d : DObj) (t : List String) : Option (M (DObj × String)) :=
     let os : OStream := { budget := (kv? rest "budget").map parseNat }
     let r ← save o os
     pure ({ o := r.obj, saved := r.os.content }, s!"save={r.ok} bytes={hexOfBytes r.os.content}")
-  | ["forceoverlap", i, j] =>
+  | "forceoverlap" :: i :: j :: rest =>
+    let delta := match rest with | [x] => parseNat x | _ => 0
     let b := d.saved
     if b.length < 64 then some (pure (d, "bad-op")) else
     let c : Cls := if (b.getD 4 0).toNat == 2 then .c64 else .c32
@@ -159,7 +160,7 @@ def wstep (d : DObj) (t : List String) : Option (M (DObj × String)) :=
     let w := match c with | .c64 => 8 | .c32 => 4
     if i ≥ shnum || j ≥ shnum || shoff + (max i j + 1) * shent > b.length then some (pure (d, "bad-op")) else
     let oi := decodeInt e (slice b (shoff + i * shent + fo) w)
-    some (pure ({ d with saved := wr b (shoff + j * shent + fo) (encodeInt e w oi) }, "ok"))
+    some (pure ({ d with saved := wr b (shoff + j * shent + fo) (encodeInt e w (oi + delta)) }, "ok"))
   | ["skew", j, dl] =>
     let b := d.saved
     if b.length < 64 then some (pure (d, "bad-op")) else
